@@ -281,6 +281,10 @@ def spline_obligations(S, F, pid_filter=None):
             yield ("C02:interp-left[piece=%d,lane=%d]" % (i, l), [left[i][0] - Y[i]])
             yield ("C02:interp-right[piece=%d,lane=%d]" % (i, l), [right[i][0] - Y[i + 1]])
             yield ("C02:cubic[piece=%d,lane=%d]" % (i, l), [left[i][4], right[i][4]])
+        for i in range(n - 1):
+            if ("Q:%d:%d" % (i, l)) in S.out:
+                t = T("Q:%d:%d" % (i, l), "qq%d" % i, X[i])
+                yield ("C02:one-polynomial-per-interval[piece=%d,lane=%d]" % (i, l), [t[k] - left[i][k] for k in range(5)])
         for i in range(1, n - 1):
             yield ("C02:c1[knot=%d,lane=%d]" % (i, l), [right[i - 1][1] - left[i][1]])
             yield ("C02:c2[knot=%d,lane=%d]" % (i, l), [right[i - 1][2] - left[i][2]])
@@ -498,6 +502,12 @@ def linear_obligations(S, F):
             sup = support(S.scn, S.out["P:%d:%d" % (i, l)])
             allowed = {"x%d" % i, "x%d" % (i + 1), "y%d_%d" % (i, l), "y%d_%d" % (i + 1, l), "q%d" % i}
             yield ("C20:support[piece=%d,lane=%d]" % (i, l), [F.one] if (sup - allowed) else [F.zero])
+            if ("Q:%d:%d" % (i, l)) in S.out:
+                t2 = S.taylor(F, env, "Q:%d:%d" % (i, l), "qq%d" % i, X[i])
+                yield ("C01:one-line-per-interval[piece=%d,lane=%d]" % (i, l), [t2[k] - t[k] for k in range(5)])
+                sup = support(S.scn, S.out["Q:%d:%d" % (i, l)])
+                allowed = {"x%d" % i, "x%d" % (i + 1), "y%d_%d" % (i, l), "y%d_%d" % (i + 1, l), "qq%d" % i}
+                yield ("C20:support[piece=%d,lane=%d,second query]" % (i, l), [F.one] if (sup - allowed) else [F.zero])
         for i in range(1, n):
             key = "K:%d:%d" % (i, l)
             if key not in S.out:
